@@ -1,4 +1,6 @@
-// witness re-runs, on the real lazy DFA, the concrete deviations recorded as `example`s in Cx/Proofs/Dfa.lean.
+// witness re-runs, on the real lazy DFA, the former deviations that Cx/Proofs/Dfa.lean now records as `_fixed` theorems
+// (class_fixed, empty_at_end_fixed, wb_precheck_fixed(2), anchored_clear_fixed, wb_flags_fixed); every line must print the
+// wanted value.
 package main
 
 import (
@@ -49,6 +51,12 @@ func main() {
 	{
 		d, c := build(`(?m)$`, 2<<20, 5)
 		fmt.Println(`(?m)$    SearchAt("aaa\n",0) (want 3):`, d.SearchAt(c, []byte("aaa\n"), 0))
+	}
+	{
+		d, c := build(`x*\b`, 2<<20, 5)
+		fmt.Println(`x*\b     SearchAt("a\nx",2)  (want 3):`, d.SearchAt(c, []byte("a\nx"), 2))
+		d, c = build(`a|\B`, 2<<20, 5)
+		fmt.Println(`a|\B     SearchAt("aa",1)    (want 2):`, d.SearchAt(c, []byte("aa"), 1))
 	}
 	{
 		d, c := build(`.\b.`, 2<<20, 5)
